@@ -116,6 +116,21 @@ func runC18(seed int64, tier string, outDir string) *result {
 		if n := len(node.Links()); n != 0 {
 			fail("links", "C18:traversable-link", fmt.Sprintf("node.Links() has %d items", n), desc)
 		}
+		// (b') the sealed entry re-stored through the public Entry.ToMultihash (default codec, as a
+		//      key-less relay or pinner would do) must not expose its links either
+		if rc, err := oe.ToMultihash(ctx, api, nil); err == nil {
+			rraw := d.raw(rc)
+			for _, l := range links {
+				for form, b := range c18Forms(l) {
+					if len(b) >= 8 && bytes.Contains(rraw, b) {
+						fail("scan", "C18:link-in-clear", fmt.Sprintf("re-stored through Entry.ToMultihash: the block contains link %s in %s form", l, form), desc)
+					}
+				}
+			}
+			if rn, err := api.Dag().Get(ctx, rc); err == nil && len(rn.Links()) != 0 {
+				fail("links", "C18:traversable-link", fmt.Sprintf("re-stored through Entry.ToMultihash: node.Links() has %d items", len(rn.Links())), desc)
+			}
+		}
 		// (c) readers
 		same, err := entry.FromMultihashWithIO(ctx, api, oe.Hash, provider, lio)
 		if err != nil {
